@@ -1245,7 +1245,12 @@ static ZSTD_DDict const* ZSTD_getDDict(ZSTD_DCtx* dctx)
 
 size_t ZSTD_decompressDCtx(ZSTD_DCtx* dctx, void* dst, size_t dstCapacity, const void* src, size_t srcSize)
 {
-    return ZSTD_decompress_usingDDict(dctx, dst, dstCapacity, src, srcSize, ZSTD_getDDict(dctx));
+    /* a single-use dictionary (ZSTD_DCtx_refPrefix) is used up by a call that succeeds, not by one the caller can repair and repeat */
+    int const singleUse = (dctx->dictUses == ZSTD_use_once);
+    size_t const result = ZSTD_decompress_usingDDict(dctx, dst, dstCapacity, src, srcSize,
+                                                     singleUse ? dctx->ddict : ZSTD_getDDict(dctx));
+    if (singleUse && !ZSTD_isError(result)) dctx->dictUses = ZSTD_dont_use;
+    return result;
 }
 
 
